@@ -19,9 +19,32 @@ package keeper
 
 // Opening a position is not looked into from the callers in other modules: any state change is
 // allowed for (weakest contract, nothing assumed).
+// Opening a position is used by contract (any state change allowed for) from other modules;
+// its own body is checked for what it hands to the position-open hook (C11).
 //@ func (Keeper).Open
 //@ modifies world, *msg
-//@ havoc-only
+//@ decabstract
+//@ ensures C11/hook-gets-the-current-pools: true
+
+//@ func (Keeper).OpenDefineAssets
+//@ modifies bank, module:amm, module:perpetual, module:accountedpool, module:tier, module:masterchef, module:sdk-distribution
+//@ frame-only
+
+//@ func (Keeper).UpdateOpenPrice
+//@ modifies module:perpetual, *mtp
+//@ frame-only
+
+//@ func (Keeper).GetAllMTPsForAddress
+//@ modifies nothing
+//@ frame-only
+
+//@ func (Keeper).CheckUserAuthorization
+//@ modifies nothing
+//@ frame-only
+
+//@ func (Keeper).CheckMaxOpenPositions
+//@ modifies nothing
+//@ frame-only
 
 // A position's identity never changes once it is shared: owner, id (assigned once by SetMTP),
 // pool, side and assets.
@@ -107,6 +130,7 @@ package keeper
 
 //@ func (Keeper).OpenConsolidate
 //@ decabstract
+//@ modifies world, *existingMtp, *newMtp, *msg
 //@ ensures C10/reopen-above-safety-factor: err == nil ==> mtpHas(ctx, unbech32(existingMtp.Address), existingMtp.Id) && mtpRow(ctx, unbech32(existingMtp.Address), existingMtp.Id).MtpHealth > resultOf("GetSafetyFactor", 1) && mtpRow(ctx, unbech32(existingMtp.Address), existingMtp.Id).MtpHealth == fst(resultOf("GetMTPHealth", 1))
 
 //@ func (Keeper).ProcessOpen
@@ -118,6 +142,9 @@ package keeper
 //@ func (Keeper).CheckAndLiquidateUnhealthyPosition
 //@ decabstract
 //@ ensures C10/closes-only-at-or-below-safety-factor: called("ForceCloseLong", 1) || called("ForceCloseShort", 1) ==> fst(resultOf("GetMTPHealth", 1)) <= resultOf("GetSafetyFactor", 1)
+// Settling a position's interest and funding moves pool custody and liabilities: the accounted pool
+// must be refreshed (a position hook) before the function returns, closed or not.
+//@ ensures C11/accounted-pool-refreshed-after-settlement: err == nil ==> called("AfterPerpetualPositionModified", 1) || called("AfterPerpetualPositionClosed", 1) || called("ForceCloseLong", 1) || called("ForceCloseShort", 1)
 
 //@ func (Keeper).CheckAndCloseAtStopLoss
 //@ decabstract
